@@ -456,6 +456,27 @@ def run(chk):
             return l
         run = base_local(loop_s[0][2]["rv"]["op"]) if loop_s[0][2]["rv"]["k"] == "use" else None
         run_t = base_local(loop_t[0][2]["rv"]["op"]) if loop_t[0][2]["rv"]["k"] == "use" else None
+        if run is not None and run_t is not None and run != run_t:
+            # the other spelling: `let end = t + step; start := t; end := end; t = end` - the end is a local computed as running time + step
+            tds = [q for q in b.defs().get(run_t, ()) if q[2] == "assign" and b.in_cycle(q[0])]
+            ok2 = False
+            if len(tds) == 1:
+                o = b._origin_def(tds[0], 0, (), set())
+                r = o
+                while r[0] in ("field", "cast", "copy"):
+                    r = r[1]
+                if r[0] == "binop" and r[1] in ("Add", "AddWithOverflow", "AddUnchecked"):
+                    incs2 = [d for d in b.defs().get(run, ()) if d[2] == "assign" and b.in_cycle(d[0])]
+
+                    def before2(p, q):
+                        if p[0] == q[0]:
+                            return p[1] < q[1]
+                        return b.dominates(p[0], q[0]) and not b.dominates(q[0], p[0])
+                    # the sum reads the running time before it is advanced, and so does the start
+                    if len(incs2) == 1 and before2(tds[0], incs2[0]) and before2(loop_s[0], incs2[0]):
+                        ok2 = True
+            if ok2:
+                return True, "", ["%s:%s" % (b.file, loop_s[0][2].get("line")), "%s:%s" % (b.file, loop_t[0][2].get("line"))]
         if run is None or run != run_t:
             return False, "the bucket's start and end are not taken from one running time", [], b.span
         incs = [d for d in b.defs().get(run, ()) if d[2] == "assign" and b.in_cycle(d[0])]
